@@ -1,0 +1,11 @@
+//go:build verif
+
+// Contracts for package certs, read by /verif/govc. Comments only.
+
+package certs
+
+//@ func ValidateFinalityCertificates
+//@   modifies auto
+//@   assumes _nextInstance >= nextInstance
+//@   assumes err == nil ==> _nextInstance == nextInstance + len(certs)
+//@   assumes err == nil ==> forall(i, 0, len(certs), certs[i].GPBFTInstance == nextInstance + i)
